@@ -83,10 +83,12 @@ def tlc(wd, module, cfg_text, timeout=600, workers=1, heap="3g", extra_args=(), 
         p = subprocess.run(cmd, cwd=wd, stdout=subprocess.PIPE, stderr=subprocess.STDOUT, text=True, timeout=timeout)
     except subprocess.TimeoutExpired as e:
         out = e.stdout.decode() if isinstance(e.stdout, bytes) else (e.stdout or "")
+        shutil.rmtree(os.path.join(wd, "meta"), ignore_errors=True)
         return dict(out=out, timeout=True, states=0, distinct=0, depth=0, violated=None, error="timeout", wall=time.time() - t0, rc=-1)
     out = p.stdout
     with open(os.path.join(wd, "tlc.out"), "w") as f:
         f.write(out)
+    shutil.rmtree(os.path.join(wd, "meta"), ignore_errors=True)   # TLC's state files: disk space is limited
     res = dict(out=out, timeout=False, wall=time.time() - t0, rc=p.returncode, states=0, distinct=0, depth=0, violated=None, error=None)
     m = re.findall(r"(\d+) states generated, (\d+) distinct states found", out)
     if m:
